@@ -17,6 +17,10 @@ pub enum Dev {
     CommitExtra(u64),
     /// verifier has one commitment fewer than the prover
     CommitMissing,
+    /// verifier has one more commitment than the prover, bit-identical to its commitment i
+    CommitExtraDuplicate(usize),
+    /// prover committed the same opening twice (at the end); the verifier's statement has it once
+    CommitMissingDuplicate(usize),
     CommitSwap(usize, usize),
     /// constant changed in constraint `at`
     Constant((usize, Option<usize>), S),
@@ -46,6 +50,8 @@ impl Dev {
             Dev::CommitRandom(..) => "F7-commit-replaced",
             Dev::CommitExtra(_) => "F7-commit-extra",
             Dev::CommitMissing => "F7-commit-missing",
+            Dev::CommitExtraDuplicate(_) => "F7-commit-extra-duplicate",
+            Dev::CommitMissingDuplicate(_) => "F7-commit-missing-duplicate",
             Dev::CommitSwap(..) => "F7-commit-reordered",
             Dev::Constant(..) => "F7-constant-changed",
             Dev::CommittedCoef(Some(_), _) => "F7-committed-coefficient-changed",
@@ -159,6 +165,24 @@ fn apply_dev<G: AffineRepr>(
         }
         Dev::CommitMissing => {
             let p2 = append_commit(base, S::U(77), S::U(78));
+            Some((p2, vst, Box::new(|c: &[G]| c[..c.len() - 1].to_vec()), true))
+        }
+        Dev::CommitExtraDuplicate(i) => {
+            if *i >= m {
+                return None;
+            }
+            let i = *i;
+            let v2 = append_commit(base, S::U(0), S::U(0));
+            Some((base.clone(), v2, Box::new(move |c: &[G]| {
+                let mut v = c.to_vec();
+                v.push(c[i]);
+                v
+            }), true))
+        }
+        Dev::CommitMissingDuplicate(i) => {
+            // the i-th commit op's opening, committed once more by the prover
+            let (vv, rr) = base.ops.iter().filter_map(|o| if let Op::Commit { v, r } = o { Some((v.clone(), r.clone())) } else { None }).nth(*i)?;
+            let p2 = append_commit(base, vv, rr);
             Some((p2, vst, Box::new(|c: &[G]| c[..c.len() - 1].to_vec()), true))
         }
         Dev::CommitSwap(i, j) => {
@@ -460,7 +484,11 @@ pub fn gen_dev(rng: &mut Rng, base: &SessionCase, kn: &gen::Knobs) -> Dev {
             2 if m > 0 => Dev::CommitOtherValue(below(rng, m), gen_scalar_nonzero::<ark_secq256k1::Fr>(rng)),
             3 if m > 0 => Dev::CommitRandom(below(rng, m), rng.next_u64()),
             4 => Dev::CommitExtra(if chance(rng, 1, 3) { 0 } else { rng.next_u64() | 1 }),
-            5 => Dev::CommitMissing,
+            5 => match below(rng, 3) {
+                0 if m > 0 => Dev::CommitExtraDuplicate(below(rng, m)),
+                1 if m > 0 => Dev::CommitMissingDuplicate(below(rng, m)),
+                _ => Dev::CommitMissing,
+            },
             6 if m > 1 => {
                 let i = below(rng, m);
                 let j = (i + 1 + below(rng, m - 1)) % m;
@@ -538,4 +566,25 @@ pub fn replay(case: &Value) -> Vec<Violation> {
 pub fn deviate<G: AffineRepr>(case: &Case, commitments: &[G]) -> Option<(Statement, Vec<G>)> {
     let (_p, v, ctf, _m) = apply_dev::<G>(&case.base.st, &case.dev)?;
     Some((v, ctf(commitments)))
+}
+
+pub fn shrink(case: &Value) -> Vec<Value> {
+    use crate::shrink::follow_at;
+    let Ok(c) = serde_json::from_value::<Case>(case.clone()) else { return vec![] };
+    let mut out = vec![];
+    for (b, removed) in shrink_session(&c.base) {
+        let dev = match (&c.dev, removed) {
+            (Dev::Constant(at, d), Some(r)) => match follow_at(*at, r) { Some(a) => Dev::Constant(a, d.clone()), None => continue },
+            (Dev::DataDrop(at), Some(r)) => match follow_at(*at, r) { Some(a) => Dev::DataDrop(a), None => continue },
+            (Dev::DataChange(at), Some(r)) => match follow_at(*at, r) { Some(a) => Dev::DataChange(a), None => continue },
+            (d, _) => d.clone(),
+        };
+        out.push(to_value(&Case { base: b, dev }));
+    }
+    if let Dev::Misdelivery(o) = &c.dev {
+        for (b, _) in shrink_session(o) {
+            out.push(to_value(&Case { base: c.base.clone(), dev: Dev::Misdelivery(Box::new(b)) }));
+        }
+    }
+    out
 }
